@@ -37,11 +37,11 @@ theorem primitive_eq (ver : Ver) (e : Endian) (p : Prim) (n pos : Nat) (h : prim
   simp only [Spec.primitive, wPrim, ssize_eq, alignPad_eq ver p.size pos (Prim.size_cases p), pad_eq, eswap_eq]
   congr 1
   cases p <;> simp [primBytes]
-  -- CHAR8 below 128: one byte
+  -- CHAR8: one byte
   simp only [primOk, Bool.and_eq_true, decide_eq_true_eq] at h
-  have h128 : n < 128 := by simpa using h.2
-  have hm : n % 256 = n := Nat.mod_eq_of_lt (by omega)
-  cases e <;> simp [encNat, leBytes, c8Bytes, h128, Prim.size, hm]
+  have h256 : n < 256 := by simpa using h.2
+  have hm : n % 256 = n := Nat.mod_eq_of_lt h256
+  cases e <;> simp [encNat, leBytes, c8Bytes, Prim.size, hm]
 
 theorem uint32_eq (ver : Ver) (e : Endian) (n pos : Nat) (h : n < 2 ^ 32) :
     Spec.uint32 ver e n pos = (wPrim ver e .u32 n pos).1 :=
@@ -291,21 +291,41 @@ theorem ser_eq_spec (d : Spec.Dialect) (cfg : Cfg) (ver : Ver) (e : Endian) : (t
   | .wstr, .num _, h, _, _, _, _ | .wstr, .str _, h, _, _, _, _ | .wstr, .struct _, h, _, _, _, _ | .wstr, .absent, h, _, _, _, _ => by simp [wfVal] at h
   | .seq _, .num _, h, _, _, _, _ | .seq _, .str _, h, _, _, _, _ | .seq _, .struct _, h, _, _, _, _ | .seq _, .absent, h, _, _, _, _ => by simp [wfVal] at h
   | .arr _ _, .num _, h, _, _, _, _ | .arr _ _, .str _, h, _, _, _, _ | .arr _ _, .struct _, h, _, _, _, _ | .arr _ _, .absent, h, _, _, _, _ => by simp [wfVal] at h
-  | .union disc bs, .struct fs, h, hnm, hid, hs, pos => by
-    simp only [wfVal] at h
-    split at h
-    · rename_i x bid v
-      simp only [Bool.and_eq_true] at h
-      obtain ⟨⟨⟨⟨hp, _⟩, _⟩, _⟩, hb⟩ := h
-      have hnm' : noMutableB bs = true ∨ d = Spec.Dialect.dust :=
-        hnm.imp (fun h => by simpa [noMutable] using h) (fun x => x)
-      simp only [shortIds] at hid
-      simp only [maxSize] at hs
-      have h3 := wPrim_pos ver e disc x pos
-      simp only [ser, Spec.ser]
-      rw [primitive_eq ver e disc x pos hp, serB_eq_spec d cfg ver e bs bid v hb hnm' hid (by omega), h3]
-    · simp at h
-  | .union _ _, .num _, h, _, _, _, _ | .union _ _, .str _, h, _, _, _, _ | .union _ _, .list _, h, _, _, _, _ | .union _ _, .absent, h, _, _, _, _ => by simp [wfVal] at h
+  | .union app disc bs, .struct fs, h, hnm, hid, hs, pos => by
+    have hwf0 : wfVal cfg ver (.union false disc bs) (.struct fs) = true := by simpa only [wfVal] using h
+    have hsz0 : maxSize (.union false disc bs) (.struct fs) = maxSize (.union app disc bs) (.struct fs) := by
+      simp only [maxSize]
+    have hnm' : noMutableB bs = true ∨ d = Spec.Dialect.dust :=
+      hnm.imp (fun h => by simpa [noMutable] using h) (fun x => x)
+    simp only [shortIds] at hid
+    -- the final form
+    have hU : ∀ p, (wUnion ver e disc (serB cfg ver e bs) fs p).1 =
+        Spec.funion ver e disc (Spec.branch d ver e bs) fs p := by
+      intro p
+      simp only [wfVal] at h
+      split at h
+      · rename_i x bid v
+        simp only [Bool.and_eq_true] at h
+        obtain ⟨⟨⟨⟨hp, _⟩, _⟩, _⟩, hb⟩ := h
+        simp only [maxSize] at hs
+        have h3 := wPrim_pos ver e disc x p
+        simp only [wUnion, Spec.funion]
+        rw [primitive_eq ver e disc x p hp, serB_eq_spec d cfg ver e bs bid v hb hnm' hid (by omega), h3]
+      · rename_i x
+        simp only [Bool.and_eq_true] at h
+        simp only [wUnion, Spec.funion, primitive_eq ver e disc x p h.1.1]
+      · simp at h
+    have hlen : ∀ p, (wUnion ver e disc (serB cfg ver e bs) fs p).1.length < 2 ^ 32 := by
+      intro p
+      have := serFacts cfg ver e (.union false disc bs) (.struct fs) hwf0 p
+      simp only [ser, Bool.false_and, Bool.false_eq_true, if_false, hsz0] at this
+      have := this.1
+      omega
+    simp only [ser, Spec.ser]
+    split
+    · exact delimited_eq ver e _ _ pos hU hlen
+    · exact hU pos
+  | .union _ _ _, .num _, h, _, _, _, _ | .union _ _ _, .str _, h, _, _, _, _ | .union _ _ _, .list _, h, _, _, _, _ | .union _ _ _, .absent, h, _, _, _, _ => by simp [wfVal] at h
   | .struct _ _, .num _, h, _, _, _, _ | .struct _ _, .str _, h, _, _, _, _ | .struct _ _, .list _, h, _, _, _, _ | .struct _ _, .absent, h, _, _, _, _ => by simp [wfVal] at h
 theorem serB_eq_spec (d : Spec.Dialect) (cfg : Cfg) (ver : Ver) (e : Endian) : (bs : Bs) → (bid : Nat) → (v : Val) →
     wfB cfg ver bs bid v = true → (noMutableB bs = true ∨ d = Spec.Dialect.dust) → shortIdsB ver bs = true →
